@@ -356,12 +356,15 @@ func inferFunc(pkg *Package, fn *internal.Elem, sig *types.Signature, targs []ty
 		tparams[i] = tp.At(i)
 	}
 	params := sig.Params()
+	if sig.Variadic() && flags&InstrFlagEllipsis == 0 {
+		params = expandVariadicParams(params, len(args))
+	}
 	// Handle implicit cast with single type param but multiple args:
 	// Keep only the first param/arg that depends on the type param and has a typed value.
 	if pkg.implicitCast != nil && len(tparams) == 1 && len(args) > 1 {
 		var index []int
-		for i := 0; i < sig.Params().Len(); i++ {
-			if typeparams.IsParameterized(tparams, sig.Params().At(i).Type()) && !isUntyped(pkg, args[i].Type) {
+		for i := 0; i < params.Len(); i++ {
+			if typeparams.IsParameterized(tparams, params.At(i).Type()) && !isUntyped(pkg, args[i].Type) {
 				index = append(index, i)
 			}
 		}
@@ -401,10 +404,34 @@ func inferFunc(pkg *Package, fn *internal.Elem, sig *types.Signature, targs []ty
 	}
 	targs, err = infer(pkg, fn.Val, tparams, targs, params, xlist)
 	if err != nil {
+		if sig.Variadic() && len(args) < sig.Params().Len() {
+			// no argument for the variadic parameter ...T
+			elem := sig.Params().At(sig.Params().Len() - 1).Type().(*types.Slice).Elem()
+			if t, ok := elem.(*types.TypeParam); ok {
+				return nil, nil, fmt.Errorf("cannot infer %v (%v)", elem, pkg.cb.fset.Position(t.Obj().Pos()))
+			}
+		}
 		return nil, nil, err
 	}
 	typ, err := types.Instantiate(pkg.cb.ctxt, sig, targs[:n], true)
 	return targs, typ, err
+}
+
+// expandVariadicParams returns the parameters of a variadic function as they
+// apply to a call with nargs arguments: the final parameter ...T is replaced
+// by one parameter of type T per variadic argument.
+func expandVariadicParams(params *types.Tuple, nargs int) *types.Tuple {
+	n := params.Len()
+	last := params.At(n - 1)
+	elem := last.Type().(*types.Slice).Elem()
+	vars := make([]*types.Var, 0, nargs)
+	for i := 0; i < n-1; i++ {
+		vars = append(vars, params.At(i))
+	}
+	for i := n - 1; i < nargs; i++ {
+		vars = append(vars, types.NewParam(last.Pos(), last.Pkg(), last.Name(), elem))
+	}
+	return types.NewTuple(vars...)
 }
 
 // appendTypeParam appends tp unless it is already listed: the same generic
@@ -427,26 +454,11 @@ func checkInferArgs(pkg *Package, fn *internal.Elem, sig *types.Signature, args 
 			return nil, fmt.Errorf(
 				"not enough arguments in call to %s\n\thave (%v)\n\twant (%v)", caller, getTypes(args), getParamsTypes(sig.Params(), true))
 		}
-		if flags&InstrFlagEllipsis != 0 {
+		if flags&InstrFlagEllipsis == 0 || nargs == nreq {
 			return args, nil
 		}
-		var typ types.Type
-		if nargs < nreq {
-			typ = sig.Params().At(nreq - 1).Type()
-			elem := typ.(*types.Slice).Elem()
-			if t, ok := elem.(*types.TypeParam); ok {
-				return nil, fmt.Errorf("cannot infer %v (%v)", elem, pkg.cb.fset.Position(t.Obj().Pos()))
-			}
-		} else {
-			typ = types.NewSlice(types.Default(args[nreq-1].Type))
-		}
-		res := make([]*internal.Elem, nreq)
-		for i := 0; i < nreq-1; i++ {
-			res[i] = args[i]
-		}
-		res[nreq-1] = &internal.Elem{Type: typ}
-		return res, nil
-	} else if nreq != nargs {
+	}
+	if nreq != nargs {
 		fewOrMany := "not enough"
 		if nargs > nreq {
 			fewOrMany = "too many"
